@@ -61,14 +61,21 @@ func bandwidth(segments []muxerSegment) (int, int) {
 	var durations time.Duration
 
 	for _, seg := range segments {
-		if _, ok := seg.(*muxerGap); !ok {
-			bandwidth := 8 * seg.getSize() * uint64(time.Second) / uint64(seg.getDuration())
-			if bandwidth > maxBandwidth {
-				maxBandwidth = bandwidth
+		// segments with no duration cannot be used to compute a bit rate
+		if dur := seg.getDuration(); dur != 0 {
+			if _, ok := seg.(*muxerGap); !ok {
+				bandwidth := 8 * seg.getSize() * uint64(time.Second) / uint64(dur)
+				if bandwidth > maxBandwidth {
+					maxBandwidth = bandwidth
+				}
+				sizes += seg.getSize()
+				durations += dur
 			}
-			sizes += seg.getSize()
-			durations += seg.getDuration()
 		}
+	}
+
+	if durations == 0 {
+		return int(maxBandwidth), 0
 	}
 
 	averageBandwidth := 8 * sizes * uint64(time.Second) / uint64(durations)
